@@ -169,7 +169,7 @@ impl Property for C10 {
         ]
     }
     fn cases(tier: Tier) -> u64 {
-        tier.pick(300_000, 5_000_000)
+        tier.pick(900_000, 5_000_000)
     }
     fn strategy(_tier: Tier) -> BoxedStrategy<Spec> {
         prop_oneof![
